@@ -24,6 +24,13 @@ EXTRA_HARNESSES = [("client", "cmd/keymaster"), ("recorder", "eventmon/eventreco
                    ("ldap", "lib/pwauth/ldap"), ("notifier", "keymasterd/eventnotifier")]
 
 
+class RuntimeCrash(Exception):
+    """the harness process was aborted by the Go runtime (fatal error: concurrent map ...)"""
+    def __init__(self, kind, frames, dump):
+        Exception.__init__(self, kind)
+        self.kind, self.frames, self.dump = kind, frames, dump
+
+
 class Inconclusive(Exception):
     """The check could not decide (exit 2) - never reported as a violation."""
 
@@ -166,6 +173,14 @@ def run_harness(binary, prop, work, cases=None, events=None, env=None, timeout=1
     r = subprocess.run(cmd, cwd=cwd or os.path.join(REPO, "cmd/keymasterd"), env=e, stdout=subprocess.PIPE,
                        stderr=subprocess.STDOUT, text=True, timeout=timeout + 60)
     open(work.path("harness.log"), "a").write(r.stdout)
+    m = re.search(r"fatal error: (concurrent map [a-z ]+)", r.stdout)
+    if m:
+        # the Go runtime aborted the process: unsynchronised map access in the code under test is exactly what the
+        # properties about data races describe - the check classifies it (frames of the crashing goroutine)
+        dump = r.stdout[m.start():m.start() + 6000]
+        frames = re.findall(re.escape(REPO) + r"/([A-Za-z0-9_/]+\.go):(\d+)", dump)
+        frames = [f for f in frames if "zz_verif" not in f[0]]
+        raise RuntimeCrash(m.group(1), frames[:8], dump[:1500])
     raced = "race detected during execution of test" in r.stdout
     if r.returncode != 0 and not (raced and "GORACE" in (env or {}) and "--- FAIL: TestVerif" in r.stdout and "panic:" not in r.stdout):
         raise Inconclusive("harness run failed (exit %d):\n%s" % (r.returncode, r.stdout[-3000:]))
